@@ -408,6 +408,9 @@ class ImmediateOperand(Operand):
             raise OperandTypeError(
                 "Instruction [{}] does not support immediate addressing".format(self.instruction.mnemonic)
             )
+        if not self.instruction.is_16_bit and self.value.is_numeric():
+            if self.value.int > (0x80 if self.value.is_negative() else 0xFF):
+                raise OperandTypeError("[{}] does not fit in an 8-bit immediate value".format(self.operand_string))
         return CodePackage(
             op_code=NumericValue(self.instruction.mode.imm),
             additional=self.value,
